@@ -66,7 +66,7 @@ CLASSIFIERS = {
     "RandomIntervalSpectralForest": {"n_estimators": [3], "min_interval": [8], "acf_lag": [4],
                                      "acf_min_values": [2]},
     "BOSSEnsemble": {"max_ensemble_size": [2, 3, 50, 50]},
-    "IndividualBOSS": {"window_size": [8], "word_length": [4]},
+    "IndividualBOSS": {"window_size": [8, 10], "word_length": [4, 6]},
     "ContractableBOSS": {"n_parameter_samples": [4], "max_ensemble_size": [2]},
     "MUSE": {},
     "ColumnEnsembleClassifier": {},
